@@ -296,5 +296,284 @@ theorem buchberger_length_le {fuel : Nat} {gens G : List (BPoly α)}
       · cases h; omega
       · exact ih h
 
+/-! ## Part A.3 : the un-cached decisions and the exact shape of every `Ideal` method -/
+
+variable (F o)
+
+/-- un-cached decision of `IsMinimal()` (on a Gröbner basis): no leading term of the normalised
+    generators is divisible by another one -/
+def decideMinimal (gens : List (BPoly α)) : Bool :=
+  (List.range (leadingTerms F o gens).2.length).all fun i =>
+    !spannedByOthers F o (leadingTerms F o gens).2 i
+
+/-- un-cached decision of `IsReduced()` (on a minimal basis): every generator equals its remainder
+    modulo the others; `none` = fuel -/
+def decideReduced (gens : List (BPoly α)) : Option Bool :=
+  if ((List.range gens.length).map fun i =>
+      (remByOthers F o gens i).map fun r => equal F r (gens.getD i [])).any (· == none) then none
+  else some (((List.range gens.length).map fun i =>
+      (remByOthers F o gens i).map fun r => equal F r (gens.getD i [])).all (· == some true))
+
+/-- the generator list after the removal loop of `MinimizeBasis()` -/
+def minimized (gens : List (BPoly α)) : List (BPoly α) :=
+  minimizeLoop F o ((leadingTerms F o gens).1.length + 1) 0 (leadingTerms F o gens).1
+    (leadingTerms F o gens).2
+
+/-- the replacement loop of `ReduceBasis()` -/
+def reduceLoop (gens : List (BPoly α)) : Option (List (BPoly α)) :=
+  (List.range gens.length).foldl (fun acc i =>
+    match acc with
+    | none => none
+    | some gens => (remByOthers F o gens i).map fun r => gens.set i r) (some gens)
+
+variable {F o}
+
+theorem leadingTerms_fst (gens : List (BPoly α)) :
+    (leadingTerms F o gens).1 = gens.map (normalize F o) := rfl
+
+theorem leadingTerms_snd (gens : List (BPoly α)) :
+    (leadingTerms F o gens).2 = (gens.map (normalize F o)).map (lt F o) := rfl
+
+theorem Ideal.eta_isGroebner (id : Ideal α) : { id with isGroebner := id.isGroebner } = id := by
+  cases id; rfl
+
+/-- exact shape of `IsGroebner()` -/
+theorem isGroebnerQ_spec {id id' : Ideal α} {b : Bool} (h : id.isGroebnerQ F o = some (id', b)) :
+    id' = { id with isGroebner := if b then 1 else -1 } ∧
+    ((id.isGroebner = 1 ∧ b = true) ∨ (id.isGroebner = -1 ∧ b = false) ∨
+     (id.isGroebner ≠ 1 ∧ id.isGroebner ≠ -1 ∧ decideGroebner F o id.gens = some b)) := by
+  unfold Ideal.isGroebnerQ at h
+  by_cases h1 : id.isGroebner = 1
+  · rw [if_pos h1] at h
+    cases h
+    refine ⟨?_, Or.inl ⟨h1, rfl⟩⟩
+    cases id; simp_all
+  · rw [if_neg h1] at h
+    by_cases h2 : id.isGroebner = -1
+    · rw [if_pos h2] at h
+      cases h
+      refine ⟨?_, Or.inr (Or.inl ⟨h2, rfl⟩)⟩
+      cases id; simp_all
+    · rw [if_neg h2] at h
+      cases hd : decideGroebner F o id.gens with
+      | none => rw [hd] at h; cases h
+      | some b' =>
+        rw [hd] at h
+        simp only [Option.map_some, Option.some.injEq, Prod.mk.injEq] at h
+        obtain ⟨rfl, rfl⟩ := h
+        exact ⟨rfl, Or.inr (Or.inr ⟨h1, h2, rfl⟩)⟩
+
+/-- `IsGroebner()` with an undecided flag computes and caches exactly `decideGroebner` -/
+theorem isGroebnerQ_undecided {id : Ideal α} (h1 : id.isGroebner ≠ 1) (h2 : id.isGroebner ≠ -1) :
+    id.isGroebnerQ F o = (decideGroebner F o id.gens).map fun b =>
+      ({ id with isGroebner := if b then 1 else -1 }, b) := by
+  unfold Ideal.isGroebnerQ
+  rw [if_neg h1, if_neg h2]
+
+/-- the predicate is idempotent: asking again gives the same answer and changes nothing -/
+theorem isGroebnerQ_idem {id id' : Ideal α} {b : Bool} (h : id.isGroebnerQ F o = some (id', b)) :
+    id'.isGroebnerQ F o = some (id', b) := by
+  obtain ⟨rfl, -⟩ := isGroebnerQ_spec h
+  cases b
+  · exact Effects.isGroebnerQ_of_neg_one F o rfl
+  · exact Effects.isGroebnerQ_of_one F o rfl
+
+/-- exact shape of `GroebnerBasis()` -/
+theorem groebnerBasis_spec {id gb : Ideal α} (h : id.groebnerBasis F o = some gb) :
+    (id.isGroebner = 1 ∧ gb = id) ∨
+    (id.isGroebner ≠ 1 ∧ ∃ G, buchberger F o groebnerFuel id.gens = some G ∧
+      gb = { gens := G, isGroebner := 1, isMinimal := 0, isReduced := 0 }) := by
+  unfold Ideal.groebnerBasis at h
+  by_cases h1 : id.isGroebner = 1
+  · rw [if_pos h1] at h; cases h; exact Or.inl ⟨h1, rfl⟩
+  · rw [if_neg h1] at h
+    cases hb : buchberger F o groebnerFuel id.gens with
+    | none => rw [hb] at h; cases h
+    | some G =>
+      rw [hb] at h
+      simp only [Option.map_some, Option.some.injEq] at h
+      exact Or.inr ⟨h1, G, rfl, h.symm⟩
+
+/-- exact shape of `MinimizeBasis()` -/
+theorem minimizeBasis_spec {id id' : Ideal α} {res : Except Kind Unit}
+    (h : id.minimizeBasis F o = some (id', res)) :
+    ∃ id1 b, id.isGroebnerQ F o = some (id1, b) ∧
+      ((b = false ∧ id' = id1 ∧ res = .error .inputValue) ∨
+       (b = true ∧ res = .ok () ∧
+        id' = { id1 with gens := minimized F o id1.gens, isMinimal := 1,
+                         isReduced := if id1.isReduced = 1 then 1 else 0 })) := by
+  unfold Ideal.minimizeBasis at h
+  cases hq : id.isGroebnerQ F o with
+  | none => rw [hq] at h; cases h
+  | some pr =>
+    obtain ⟨id1, b⟩ := pr
+    rw [hq] at h
+    refine ⟨id1, b, rfl, ?_⟩
+    cases b
+    · simp only [Option.some.injEq, Prod.mk.injEq] at h
+      exact Or.inl ⟨rfl, h.1.symm, h.2.symm⟩
+    · simp only [Option.some.injEq, Prod.mk.injEq] at h
+      exact Or.inr ⟨rfl, h.2.symm, h.1.symm⟩
+
+theorem minimizeBasis_of_isGroebnerQ_false {id id1 : Ideal α}
+    (hq : id.isGroebnerQ F o = some (id1, false)) :
+    id.minimizeBasis F o = some (id1, .error .inputValue) := by
+  unfold Ideal.minimizeBasis; rw [hq]
+
+theorem minimizeBasis_of_isGroebnerQ_true {id id1 : Ideal α}
+    (hq : id.isGroebnerQ F o = some (id1, true)) :
+    id.minimizeBasis F o = some (⟨minimized F o id1.gens, id1.isGroebner, 1,
+      if id1.isReduced = 1 then 1 else 0⟩, .ok ()) := by
+  unfold Ideal.minimizeBasis; rw [hq]; rfl
+
+theorem minimizeBasis_of_isGroebnerQ_none {id : Ideal α} (hq : id.isGroebnerQ F o = none) :
+    id.minimizeBasis F o = none := by
+  unfold Ideal.minimizeBasis; rw [hq]
+
+/-- exact shape of `IsMinimal()` -/
+theorem isMinimalQ_spec {id id' : Ideal α} {b : Bool} (h : id.isMinimalQ F o = some (id', b)) :
+    (id.isMinimal = 1 ∧ id' = id ∧ b = true) ∨ (id.isMinimal = -1 ∧ id' = id ∧ b = false) ∨
+    (id.isMinimal ≠ 1 ∧ id.isMinimal ≠ -1 ∧ ∃ id1 bg, id.isGroebnerQ F o = some (id1, bg) ∧
+      ((bg = false ∧ b = false ∧ id' = { id1 with isMinimal := -1 }) ∨
+       (bg = true ∧ b = decideMinimal F o id1.gens ∧
+        id' = { id1 with gens := id1.gens.map (normalize F o),
+                         isMinimal := if b then 1 else -1 }))) := by
+  unfold Ideal.isMinimalQ at h
+  by_cases h1 : id.isMinimal = 1
+  · rw [if_pos h1] at h; cases h; exact Or.inl ⟨h1, rfl, rfl⟩
+  · rw [if_neg h1] at h
+    by_cases h2 : id.isMinimal = -1
+    · rw [if_pos h2] at h; cases h; exact Or.inr (Or.inl ⟨h2, rfl, rfl⟩)
+    · rw [if_neg h2] at h
+      refine Or.inr (Or.inr ⟨h1, h2, ?_⟩)
+      cases hq : id.isGroebnerQ F o with
+      | none => rw [hq] at h; cases h
+      | some pr =>
+        obtain ⟨id1, bg⟩ := pr
+        rw [hq] at h
+        refine ⟨id1, bg, rfl, ?_⟩
+        cases bg
+        · simp only [Option.some.injEq, Prod.mk.injEq] at h
+          exact Or.inl ⟨rfl, h.2.symm, h.1.symm⟩
+        · simp only [Option.some.injEq, Prod.mk.injEq] at h
+          refine Or.inr ⟨rfl, ?_, ?_⟩
+          · rw [← h.2]; rfl
+          · rw [← h.1, ← h.2]; rfl
+
+/-- in every case the answer of `IsMinimal()` is what is cached afterwards -/
+theorem isMinimalQ_flag {id id' : Ideal α} {b : Bool} (h : id.isMinimalQ F o = some (id', b)) :
+    id'.isMinimal = if b then 1 else -1 := by
+  rcases isMinimalQ_spec h with ⟨h1, rfl, rfl⟩ | ⟨h1, rfl, rfl⟩ | ⟨_, _, id1, bg, _, h3⟩
+  · exact h1
+  · exact h1
+  · rcases h3 with ⟨_, rfl, rfl⟩ | ⟨_, _, rfl⟩ <;> rfl
+
+theorem isMinimalQ_of_one {id : Ideal α} (h : id.isMinimal = 1) :
+    id.isMinimalQ F o = some (id, true) := by
+  unfold Ideal.isMinimalQ; rw [if_pos h]
+
+theorem isMinimalQ_of_neg_one {id : Ideal α} (h : id.isMinimal = -1) :
+    id.isMinimalQ F o = some (id, false) := by
+  unfold Ideal.isMinimalQ; rw [if_neg (by rw [h]; decide), if_pos h]
+
+theorem isMinimalQ_idem {id id' : Ideal α} {b : Bool} (h : id.isMinimalQ F o = some (id', b)) :
+    id'.isMinimalQ F o = some (id', b) := by
+  have hf := isMinimalQ_flag h
+  cases b
+  · exact isMinimalQ_of_neg_one hf
+  · exact isMinimalQ_of_one hf
+
+/-- exact shape of `ReduceBasis()` -/
+theorem reduceBasis_spec {id id' : Ideal α} {res : Except Kind Unit}
+    (h : id.reduceBasis F o = some (id', res)) :
+    ∃ id1 bg, id.isGroebnerQ F o = some (id1, bg) ∧
+      ((bg = false ∧ id' = id1 ∧ res = .error .inputValue) ∨
+       (bg = true ∧ res = .ok () ∧ ∃ idm gens,
+          (if id1.isMinimal ≠ 1 then (id1.minimizeBasis F o).map (·.1) else some id1) = some idm ∧
+          reduceLoop F o idm.gens = some gens ∧
+          id' = { idm with gens := gens, isReduced := 1 })) := by
+  unfold Ideal.reduceBasis at h
+  cases hq : id.isGroebnerQ F o with
+  | none => rw [hq] at h; cases h
+  | some pr =>
+    obtain ⟨id1, bg⟩ := pr
+    rw [hq] at h
+    refine ⟨id1, bg, rfl, ?_⟩
+    cases bg
+    · simp only [Option.some.injEq, Prod.mk.injEq] at h
+      exact Or.inl ⟨rfl, h.1.symm, h.2.symm⟩
+    · simp only at h
+      refine Or.inr ⟨rfl, ?_⟩
+      generalize hM : (if id1.isMinimal ≠ 1 then Option.map (·.1) (id1.minimizeBasis F o)
+        else some id1) = idM at h
+      cases idM with
+      | none => cases h
+      | some idm =>
+        replace h : (reduceLoop F o idm.gens).map (fun gens =>
+            (({ idm with gens := gens, isReduced := 1 } : Ideal α), (Except.ok () : Except Kind Unit)))
+            = some (id', res) := h
+        cases hl : reduceLoop F o idm.gens with
+        | none => rw [hl] at h; cases h
+        | some gens =>
+          rw [hl] at h
+          simp only [Option.map_some, Option.some.injEq, Prod.mk.injEq] at h
+          exact ⟨h.2.symm, idm, gens, rfl, hl, h.1.symm⟩
+
+/-- exact shape of `IsReduced()` -/
+theorem isReducedQ_spec {id id' : Ideal α} {b : Bool} (h : id.isReducedQ F o = some (id', b)) :
+    (id.isReduced = 1 ∧ id' = id ∧ b = true) ∨ (id.isReduced = -1 ∧ id' = id ∧ b = false) ∨
+    (id.isReduced ≠ 1 ∧ id.isReduced ≠ -1 ∧ ∃ id1 bm, id.isMinimalQ F o = some (id1, bm) ∧
+      ((bm = false ∧ b = false ∧ id' = { id1 with isReduced := -1 }) ∨
+       (bm = true ∧ decideReduced F o id1.gens = some b ∧
+        id' = { id1 with isReduced := if b then 1 else -1 }))) := by
+  unfold Ideal.isReducedQ at h
+  by_cases h1 : id.isReduced = 1
+  · rw [if_pos h1] at h; cases h; exact Or.inl ⟨h1, rfl, rfl⟩
+  · rw [if_neg h1] at h
+    by_cases h2 : id.isReduced = -1
+    · rw [if_pos h2] at h; cases h; exact Or.inr (Or.inl ⟨h2, rfl, rfl⟩)
+    · rw [if_neg h2] at h
+      refine Or.inr (Or.inr ⟨h1, h2, ?_⟩)
+      cases hq : id.isMinimalQ F o with
+      | none => rw [hq] at h; cases h
+      | some pr =>
+        obtain ⟨id1, bm⟩ := pr
+        rw [hq] at h
+        refine ⟨id1, bm, rfl, ?_⟩
+        cases bm
+        · simp only [Option.some.injEq, Prod.mk.injEq] at h
+          exact Or.inl ⟨rfl, h.2.symm, h.1.symm⟩
+        · simp only at h
+          refine Or.inr ⟨rfl, ?_⟩
+          unfold decideReduced
+          split at h
+          · cases h
+          · rename_i hany
+            rw [if_neg hany]
+            simp only [Option.some.injEq, Prod.mk.injEq] at h
+            exact ⟨by rw [← h.2], by rw [← h.1, ← h.2]⟩
+
+theorem isReducedQ_flag {id id' : Ideal α} {b : Bool} (h : id.isReducedQ F o = some (id', b)) :
+    id'.isReduced = if b then 1 else -1 := by
+  rcases isReducedQ_spec h with ⟨h1, rfl, rfl⟩ | ⟨h1, rfl, rfl⟩ | ⟨_, _, id1, bg, _, h3⟩
+  · exact h1
+  · exact h1
+  · rcases h3 with ⟨_, rfl, rfl⟩ | ⟨_, _, rfl⟩ <;> rfl
+
+theorem isReducedQ_of_one {id : Ideal α} (h : id.isReduced = 1) :
+    id.isReducedQ F o = some (id, true) := by
+  unfold Ideal.isReducedQ; rw [if_pos h]
+
+theorem isReducedQ_of_neg_one {id : Ideal α} (h : id.isReduced = -1) :
+    id.isReducedQ F o = some (id, false) := by
+  unfold Ideal.isReducedQ; rw [if_neg (by rw [h]; decide), if_pos h]
+
+theorem isReducedQ_idem {id id' : Ideal α} {b : Bool} (h : id.isReducedQ F o = some (id', b)) :
+    id'.isReducedQ F o = some (id', b) := by
+  have hf := isReducedQ_flag h
+  cases b
+  · exact isReducedQ_of_neg_one hf
+  · exact isReducedQ_of_one hf
+
 end BPoly
 end Algobra
